@@ -84,7 +84,7 @@ def showEval : EvalOut → String
   | .panic w => "PANIC " ++ w
   | .oof => "OOF"
 
-def ttName (t : TT) : String := (reprStr t).replace "Tw.TT." ""
+def ttName (t : TT) : String := t.name
 
 def showTok (t : Token) : String :=
   s!"{ttName t.ty}:{toHex t.lit}:{t.pos.startLine}:{t.pos.startCol}:{t.pos.endLine}:{t.pos.endCol}"
